@@ -860,9 +860,23 @@ static void gen_key(struct rng *r, struct mkey *k, int variety)
 	memcpy(k->ski, SKIS[rndn(r, 5)], SKI_SIZE);
 	uint32_t v = rndn(r, (uint32_t)variety);
 
-	for (int b = 0; b < SPKI_SIZE; b++)
-		k->spki[b] = (uint8_t)(v * 31 + b);
-	k->spki[1] = (uint8_t)(v >> 8);
+	if (v % 4 == 3) {
+		for (int b = 0; b < SPKI_SIZE; b++)
+			k->spki[b] = (uint8_t)(v * 31 + b);
+		k->spki[1] = (uint8_t)(v >> 8);
+	} else {
+		/* like real router keys: the 26-byte SubjectPublicKeyInfo header of a P-256 key and the 0x04 of an
+		 * uncompressed point are common to all of them; two keys differ in two bytes somewhere in the point only */
+		static const uint8_t HDR[27] = {0x30, 0x59, 0x30, 0x13, 0x06, 0x07, 0x2a, 0x86, 0x48, 0xce, 0x3d, 0x02, 0x01, 0x06,
+						0x08, 0x2a, 0x86, 0x48, 0xce, 0x3d, 0x03, 0x01, 0x07, 0x03, 0x42, 0x00, 0x04};
+		unsigned int at = 27 + (v * 7) % 62;
+
+		memcpy(k->spki, HDR, sizeof(HDR));
+		for (int b = 27; b < SPKI_SIZE; b++)
+			k->spki[b] = (uint8_t)(0xA0 + b);
+		k->spki[at] = (uint8_t)(v >> 8);
+		k->spki[at + 1] = (uint8_t)v;
+	}
 	k->src = (uint8_t)rndn(r, 3);
 }
 
@@ -1051,7 +1065,7 @@ static void run_spki_case(struct rng *r, long c)
 					m.asn ^= 1;
 					break;
 				case 1:
-					m.spki[5] ^= 1;
+					m.spki[rndn(r, SPKI_SIZE)] ^= (uint8_t)(1u << rndn(r, 8)); /* any single bit of the key */
 					break;
 				default:
 					m.src = (uint8_t)((m.src + 1) % 3);
